@@ -50,6 +50,22 @@ def check_conflict_terms(rep, rule, fb):
 
 
 
+def check_exit_set_vocabulary(rep, rule, fb):
+    """Predicates.cpp::getExitSet collects the descendants of the domain that can be part of a configuration: state, parallel, final"""
+    xs = fb.fn('uscxml::getExitSet')
+    calls = [n for n in xs.walk() if n.get('callee', {}).get('q', '').endswith('DOMUtils::inDocumentOrder')]
+    if not calls:
+        raise AnalysisBroken('getExitSet: the inDocumentOrder call that collects the states to exit was not found')
+    names = set()
+    for n in xs.walk():
+        if n['k'] == 'StringLiteral' and n.get('str', '').isalpha():
+            names.add(n['str'])
+    names &= set(STATE_VOCAB)
+    want = {'state', 'parallel', 'final'}
+    rep.check(names == want, rule, 'getExitSet|vocabulary', locstr(calls[0]), 'the exit set is collected over the elements %s; states that can be active: %s%s' % (
+        sorted(names), sorted(want), '' if names == want else ' -- %s never leave the configuration / %s are exited although they are never active' % (sorted(want - names), sorted(names - want))))
+
+
 def check_history_completion(rep, rule, fb):
     defs = {}
     for q in ('uscxml::ChartToC::setHistoryCompletion', 'uscxml::LargeMicroStep::getHistoryCompletion', 'uscxml::FastMicroStep::getHistoryCompletion'):
@@ -147,6 +163,7 @@ def run(rep, tier):
     rep.rule('R05.3', 'vocabulary agreement: the element-name sets that define document / post-fix order are the same six names at every site (ChartToC::prepare, LargeMicroStep::init, FastMicroStep::init)')
     rep.rule('R05.4', 'conflict definition agreement: ChartToC::prepare and Predicates.cpp::conflicts use the same terms (source ancestry both ways, exit-set intersection; same source)')
     rep.rule('R05.5', 'shape of the shared helpers that define the tables: getTransitionDomain returns the source only for an internal transition with compound source whose targets ALL are descendants; findLCCA accepts the NEAREST ancestor that is compound and contains ALL states (quantifier-shape analysis on the CFG, flag idioms included)')
+    rep.rule('R05.7', 'exit-set vocabulary: getExitSet collects exactly the kinds of state that can be active (state, parallel, final); pseudo-states never are')
     rep.rule('R05.6', 'history completion is defined alike in the transpiler tables and in both engines: deep = non-history descendants of the parent, shallow = non-history children, and the same answer to "are states covered by another history left out?" (liveness of the exclusion filter)')
     rep.assume('that Predicates.cpp computes the relations the recommendation defines for every state tree is decided only as far as R05.4/R05.5 go (conflict terms, domain/LCCA quantifier shape); getProperAncestors, getTargetStates and the DOM helpers are not analysed')
     fb = facts.FactBase(TUS)
@@ -265,3 +282,5 @@ def run(rep, tier):
 
     # ---- R05.6
     check_history_completion(rep, 'R05.6', fb)
+    # ---- R05.7
+    check_exit_set_vocabulary(rep, 'R05.7', fb)
